@@ -66,7 +66,7 @@ pub struct Profile {
 
 pub fn profile_for(prop: &str, thorough: bool) -> Profile {
     let mut w = BASE_WEIGHTS;
-    let mut p = Profile { weights: w, refuse_pct: 0, natural_oom: false, min_steps: 5, max_steps: 40, large_pct: 0, large_prefill: 0, giant_div: if thorough { 400 } else { 25 }, marathon_div: if thorough { 2500 } else { 200 } };
+    let mut p = Profile { weights: w, refuse_pct: 0, natural_oom: false, min_steps: 5, max_steps: 40, large_pct: 0, large_prefill: 0, giant_div: if thorough { 100 } else { 25 }, marathon_div: if thorough { 800 } else { 200 } };
     let mul = |w: &mut [u32; N_CAT], cats: &[usize], m: u32| {
         for &c in cats {
             w[c] = w[c].max(1) * m;
